@@ -89,6 +89,10 @@ def gen(rng: Any, tier: str, i: int) -> Any:
     if mode != "api3" and nleaf >= 2 and rng.random() < 0.2:
         # lock-step lost mid-stream: one input the formula reads has no sample for one timestamp
         prog["gap"] = [rng.randint(1, len(vecs) - 2), rng.choice(sorted(set(_leaves(ast, []))))]
+        lag = [i for i in sorted(set(_leaves(ast, []))) if (prog.get("prelude") or [0] * nleaf)[i] > 0]
+        if lag and rng.random() < 0.5:
+            # the sample a lagging stream (one that began earlier) would have to catch up to is the one it lacks
+            prog["gap"] = [0, rng.choice(lag)]
     return prog
 
 
@@ -234,6 +238,11 @@ def check(prog: dict[str, Any], rec: Any) -> None:
                 rec.violation("output-for-a-timestamp-one-input-never-delivered",
                               {"program": prog.get("src") or fm_repr(ast), "round": k, "gap": prog["gap"],
                                "outputs": [(str(t), v) for t, v in got]})
+            continue
+        if prog.get("gap") and prog["gap"][0] == 0 and k == 1 and not (out["rounds"][k] if k < len(out["rounds"]) else []):
+            # the first synchronisation failed on the missing sample and was repeated one timestamp later; the
+            # statement is about the values that are emitted, so the silent timestamp is counted, not judged
+            rec.count("timestamp_skipped_while_first_synchronisation_was_repeated")
             continue
         if fm.div_by_zero_somewhere(ast, vals):
             # a divisor that is exactly zero by construction: the expression has no value, and no number may be
